@@ -9,6 +9,7 @@ import (
 	"fmt"
 	"hash/fnv"
 	"os"
+	"reflect"
 	"runtime"
 	"runtime/debug"
 	"sort"
@@ -17,6 +18,7 @@ import (
 	"sync"
 	"testing"
 	"time"
+	"unsafe"
 
 	"github.com/omec-project/upf-epc/logger"
 	"go.uber.org/zap"
@@ -312,4 +314,18 @@ func vLeakedLock(u *upf) string {
 		p.mu.Unlock()
 	}
 	return ""
+}
+
+// vSetField sets the (unexported) field of *obj by name if it exists and takes the value; false otherwise.
+func vSetField(obj any, name string, val any) bool {
+	v := reflect.ValueOf(obj).Elem().FieldByName(name)
+	if !v.IsValid() {
+		return false
+	}
+	rv := reflect.ValueOf(val)
+	if !rv.Type().AssignableTo(v.Type()) {
+		return false
+	}
+	reflect.NewAt(v.Type(), unsafe.Pointer(v.UnsafeAddr())).Elem().Set(rv)
+	return true
 }
